@@ -100,6 +100,11 @@ def run(ctx):
             last = out[-1]
             brief = {k: last[k] for k in last if not isinstance(last[k], list)}
             ctx.violation("%d recorded lines not explained by Coordinates.tla, first: %s" % (len(newbad), json.dumps(brief)[:240]), rp)
+    # vacuity guard: every kind of observation the driver claims to record must be present
+    if not ctx.replay:
+        missing = [k for k in ("Row", "RT0", "RT1", "RT2", "PL", "TB", "Arc0", "Arc1", "Arc2", "Arc3") if kinds.get(k, 0) == 0]
+        if missing or nconf < 50:
+            raise lib.ModelFailure("recorded trace lacks observations of kind %s (%d configurations)" % (missing, nconf))
     ctx.extra["configurations"] = nconf
     ctx.extra["observations_by_kind"] = kinds
     ctx.exhaustive = False
